@@ -12,7 +12,7 @@ set -u
 git -C /repo worktree add -q --detach $WT HEAD || exit 2
 trap 'git -C /repo worktree remove --force $WT; rm -f $LOG' EXIT
 cd $WT
-PKGDIR=$(python3 -c "import json;print(json.load(open('$SRC/meta.json')).get('demo_pkg_dir','').strip('/'))")
+PKGDIR=$(python3 -c "import json;print(json.load(open('$SRC/meta.json')).get('demo_pkg_dir','').split()[0].strip('/').rstrip(',;'))")
 RUNPAT=$(python3 -c "
 import json,re
 m=json.load(open('$SRC/meta.json')); r=m.get('demo_run','')
@@ -39,8 +39,14 @@ for p in $PKGS; do
 done
 # dependants most likely to exercise the change
 for p in ./txnkv/... ./internal/locate/ ./internal/client/ ./rawkv/ ./internal/mockstore/... ./internal/unionstore/...; do
-  go test -vet=off -count=1 $p 2>&1 | grep -E "^(FAIL|--- FAIL)" | head -5
-  [ ${PIPESTATUS[0]} -ne 0 ] && EX=1
+  go test -vet=off -count=1 $p > /tmp/confirm_dep_$ID$M.out 2>&1
+  if [ $? -ne 0 ]; then
+    # timing-sensitive suites (internal/locate, internal/client) are flaky under load: a package counts as
+    # failing only if it fails twice in a row
+    grep -E "^(FAIL|--- FAIL)" /tmp/confirm_dep_$ID$M.out | head -5; echo "(retrying $p once)"
+    go test -vet=off -count=1 $p 2>&1 | grep -E "^(FAIL|--- FAIL)" | head -5
+    [ ${PIPESTATUS[0]} -ne 0 ] && EX=1
+  fi
 done
 git checkout -- .
 echo "base=$BASE mut=$MUT existing=$EX"
